@@ -173,12 +173,19 @@ def run(ctx):
             ctx.check("invariant under common rescaling", rel(v2, v1) <= 10 and rel(v3, v1) <= 10, lambda: dict(desc(), scale=s, before=v1, after=(v2, v3)),
                       mechanism="rescaling (%s)" % model)
         # simultaneous fit: CombineFCN = sum of the parts
-        if (i % 4 == 0 or gauss) and model in ("default", "extended", "cached_int", "cfit", "cfit_extended", "simple"):
+        rnd_ = i // len(MODEL_NAMES)
+        if ((i % len(MODEL_NAMES) + rnd_) % 2 == 0 or gauss) and model in ("default", "extended", "cached_int", "cfit", "cfit_extended", "simple"):
             try:
                 data2 = lik.make_sample(cfg, card, 29, rng, "positive", cfit=cfit)
                 phsp2 = lik.make_sample(cfg, card, 77, rng, "ones", cfit=cfit)
                 with lik.quiet():
-                    cfg2 = cards.load(card, extra_data=dict(opts, bg_weight=[w_bkg, w_bkg]) if kind == "bg" else dict(opts, bg_frac=[bg_frac, bg_frac]))
+                    # the background weight / fraction of a simultaneous fit is given once for all data sets (a plain number) or per data set (a list)
+                    as_list = (rnd_ // 2) % 2 == 0  # de-aliased from the condition above: every model meets both forms within four rounds
+                    ctx.covered("combine_background_given_as", "list" if as_list else "one number for all data sets")
+                    if kind == "bg":
+                        cfg2 = cards.load(card, extra_data=dict(opts, bg_weight=[w_bkg, w_bkg] if as_list else w_bkg))
+                    else:
+                        cfg2 = cards.load(card, extra_data=dict(opts, bg_frac=[bg_frac, bg_frac] if as_list else bg_frac))
                     amp2 = cfg2.get_amplitude()
                     amp2.set_params(params)
                     comb = cfg2.get_fcn([[data, data2], [phsp, phsp2], [bg, None], None], batch=31)
@@ -193,7 +200,7 @@ def run(ctx):
                 want = ref1 + ref2 + g_extra
                 if min2 > 1e-5:
                     ctx.check("CombineFCN == sum of parts", rel(float(vc), want) <= 1.0 and rel(vc0, want) <= 1.0 and rel(vch, want) <= 1.0,
-                              lambda: dict(desc(), combined=(float(vc), vc0, vch), parts=(ref1, ref2, g_extra)), mechanism="CombineFCN (%s)" % model)
+                              lambda: dict(desc(), combined=(float(vc), vc0, vch), parts=(ref1, ref2, g_extra)), mechanism="CombineFCN (%s)%s" % (model, "" if as_list else ", background fraction given once for all data sets"))
             except Exception as e:
                 ctx.violation("CombineFCN == sum of parts", ctx.exc_witness(e, **desc()), mechanism="CombineFCN raises (%s)" % model)
         if i < ctx.nshards:
